@@ -803,7 +803,7 @@ func ruleTempFilePairing(c *Ctx, rule string) {
 					if failed {
 						continue
 					}
-					if !mustPassBetween(call, ret, registers) {
+					if !mustPassBetween(call, ret, viaCalls(registers)) {
 						leak = ret
 					}
 				}
@@ -1883,7 +1883,7 @@ func rulePadFromEnds(c *Ctx, rule string) {
 				}
 				n++
 				key := fmt.Sprintf("multi.(*Multi).Flush/pad-length#%d", n)
-				cnt := call.Call.Args[len(call.Call.Args)-1]
+				cnt := callerArg(call.Call.Args[len(call.Call.Args)-1], fn) // a helper's count parameter: what Flush passes
 				bo, ok := cnt.(*ssa.BinOp)
 				if !ok || bo.Op != token.SUB {
 					c.und(rule, key, call.Pos(), "the pad length is not a difference")
